@@ -277,6 +277,21 @@ def run(rep, tier):
                            "model's header name with the model's text (strings verbatim, timestamps in the member's format, integers, booleans)" % (
                                _fill_cache["ops"], _fill_cache["checked"]), "replayer(not solver-decided)", "holds", time.time() - t1,
                            queries=_fill_cache["checked"])
+    t1 = time.time()
+    try:
+        ddev, nd = document_outcomes(rep, model)
+        if nd < 20:
+            rep.fail_inconclusive("filled-output documents: only %d operations could be checked" % nd)
+        elif ddev:
+            op0 = sorted(ddev)[0]
+            res = rep.violation("witness:document:%s" % op0, "real build: %s: %s (%d operations deviate)" % (op0, ddev[op0], len(ddev)),
+                                rep.save_cex("fill_document", ddev), confirmed=True)
+            rep.obligation("filled-output documents", "replayer", res, time.time() - t1)
+        else:
+            rep.obligation("witnesses: the response documents of %d operations (filled outputs) are well-formed, have the model's root element and carry every "
+                           "filled top-level body member under the model's element name" % nd, "replayer(not solver-decided)", "holds", time.time() - t1, queries=nd)
+    except Exception as e:      # noqa: BLE001
+        rep.fail_inconclusive("filled-output documents: %r" % (e,))
     # response documents: the symbolic XML codec obligations of C13 (what the backend returns in a body is what a client decodes)
     t1 = time.time()
     try:
@@ -364,6 +379,65 @@ def fill_outcomes(rep, model):
     _fill_cache["checked"] = checked
     _fill_cache["ops"] = len(ops)
     return dev
+
+
+def document_outcomes(rep, model):
+    """real build: the response DOCUMENT of every operation whose output has body members, with the filled output: well-formed XML, the root
+    element the model names, and every filled top-level body member as <XmlName>text</XmlName>.  -> ({op: what}, number of operations)"""
+    import subprocess
+    import json as _json
+    import xml.etree.ElementTree as ET
+    import C13
+    b = replay.binary()
+    filled = dict((m, dict(fs)) for m, fs in _json.loads(subprocess.run([b, "filled"], stdout=subprocess.PIPE, text=True, timeout=60).stdout))
+    ops, scs = [], []
+    for op in sorted(model.ops):
+        members = [(n, i) for n, i in model.members(model.output_shape(op)) if i["loc"] == "body"]
+        if not members or snake(op) not in filled:
+            continue
+        try:
+            rq = model_request(op, BODIES.get(op))
+        except Exception:      # noqa: BLE001
+            continue
+        ops.append((op, members))
+        scs.append({"config": {}, "request": rq, "backend": {"output": {"fill": True}}})
+    outs = replay.run_scenarios(scs)
+    rep.traces_validated += len(scs)
+    dev, n = {}, 0
+    for (op, members), o in zip(ops, outs):
+        if not any(e["ev"].startswith("s3.") for e in o.get("events", [])):
+            continue
+        n += 1
+        body = o.get("body_text", "").strip()
+        try:
+            root = ET.fromstring(body)
+        except ET.ParseError as e:
+            dev[op] = "the response document is not well-formed XML (%s): %s" % (e, body[:160])
+            continue
+        tag = root.tag.split("}")[-1]
+        want_roots = C13.expected_roots(model, op + "Output") or set()
+        if want_roots and tag not in want_roots:
+            dev[op] = "root element <%s>, the model names it %s" % (tag, sorted(want_roots))
+            continue
+        fs = filled[snake(op)]
+        children = {}
+        for c in root:
+            children.setdefault(c.tag.split("}")[-1], []).append(c.text or "")
+        for name, i in members:
+            f = [x for x in fs if norm(x) == norm(snake(name))]
+            if not f or fs[f[0]] not in ("string", "int", "bool"):
+                continue
+            want = {"string": "F-" + f[0], "int": "7", "bool": "true"}[fs[f[0]]]
+            xml_name = i["xml_name"] or name
+            if len(members) == 1 and xml_name == tag and not children:
+                if (root.text or "") != want:       # GetBucketLocation: the member IS the root element
+                    dev[op] = "member %s = %r is written as the root text %r" % (name, want, root.text)
+                    break
+                continue
+            if children.get(xml_name) != [want]:
+                dev[op] = "member %s = %r is written as <%s>: %r" % (name, want, xml_name, children.get(xml_name))
+                break
+    return dev, n
 
 
 def model_request(op, body=None):
